@@ -12,7 +12,7 @@
 (*     the first rule of q's accept list whose right context holds (or     *)
 (*     that has none) is recorded, at most one                             *)
 (*   next() = c:     char arm > range guard > `_` arm                      *)
-(*     target state: inlined (single predecessor) -> continue in place,    *)
+(*     target state: inlined (single predecessor, single arm) -> in place, *)
 (*       otherwise __state := its arm number and dispatch again            *)
 (*     accepting edge (removed terminal state): context chain, then        *)
 (*       reset_accepting_state + the rule's action; if every context       *)
@@ -59,7 +59,15 @@ Loc(i) == LocSeq(LocAt(inp, i))
 LmLocs(x) == IF x = <<>> THEN <<>> ELSE <<Loc(x[1].ms), Loc(x[1].p)>>
 
 St(q) == D.dfa[q + 1]
-Inlined(q) == Len(St(q).preds) = 1 /\ ~St(q).initial
+\* inlined into its predecessor: one predecessor, not an entry state, and a single `match` arm of
+\* the predecessor (characters / ranges / `_`) leads to it
+ArmsInto(q) ==
+  LET pr == St(St(q).preds[1])
+      hit(t) == t.s = q
+  IN  (IF \E k \in 1..Len(pr.chars) : hit(pr.chars[k].t) THEN 1 ELSE 0)
+      + (IF \E k \in 1..Len(pr.ranges) : hit(pr.ranges[k].t) THEN 1 ELSE 0)
+      + (IF \E k \in 1..Len(pr.any) : hit(pr.any[k]) THEN 1 ELSE 0)
+Inlined(q) == Len(St(q).preds) = 1 /\ ~St(q).initial /\ ArmsInto(q) = 1
 Renum(q) == D.renumber[q + 1].renum
 \* the DFA state whose `match` arm the register value selects (`_` arm last)
 ArmState(v) ==
